@@ -49,11 +49,9 @@ CountOps(s, o) == IF s = <<>> THEN 0 ELSE (IF Head(s) = o THEN 1 ELSE 0) + Count
 RECURSIVE SumOver(_, _)
 SumOver(pr, o) == IF pr = <<>> THEN 0 ELSE CountOps(Head(pr), o) + SumOver(Tail(pr), o)
 NItems(c) == SumOver(c.prog, "e")
-NFail(c) == Cardinality({k \in 1..Len(c.faults) : c.faults[k]})
-\* every accepted launch answers a distinct signal: program e / s, one retry or main signal per refusal, one more of main
-MaxCons(c) == NItems(c) + SumOver(c.prog, "s") + NFail(c) + 1
-ThrOf(c) == 0..(Len(c.prog) + MaxCons(c))
-Thr == ThrOf(cfg)
+\* main + program threads exist from the start; consumer threads of the asynchronous executor are added at launch
+ThrOf(c) == 0..Len(c.prog)
+Thr == DOMAIN pc
 Prog == 1..P
 
 EvLoc == <<"events", 0>>
@@ -65,7 +63,7 @@ NoEv == [t |-> 0, k |-> "", site |-> "", mo |-> "", loc |-> "", i |-> 0, v |-> 0
 
 L0 == [opi |-> 1, nexe |-> 0, op |-> "", item |-> 0, res |-> 0, failed |-> FALSE, stage |-> "wait",
        tkt |-> 0, seen |-> 0, cret |-> "", base |-> 0, n |-> 0, lim |-> 0, second |-> FALSE,
-       jset |-> {}, jown |-> {}, jfly |-> {}]
+       jset |-> {}, jown |-> {}, jfly |-> {}, jmiss |-> FALSE, jmissown |-> FALSE, jflym |-> FALSE]
 
 H0 == [called |-> {}, returned |-> {}, sig |-> {}, cons |-> {}, consEnd |-> {}, inCons |-> {},
        unrec |-> FALSE, refusedEver |-> FALSE, natt |-> 0, nspawn |-> 0, bad |-> ""]
@@ -74,7 +72,7 @@ Q0 == [tk |-> <<>>, head |-> 0, freed |-> 0]
 
 MS0(c) == WMInit(ThrOf(c),
                  [x \in {EvLoc} \cup {PubLoc(k) : k \in 0..NItems(c) - 1} \cup {ValLoc(k) : k \in 0..NItems(c) - 1} |-> 0])
-PC0(c) == [t \in ThrOf(c) |-> IF t = 0 THEN "m_wait" ELSE IF t <= Len(c.prog) THEN "idle" ELSE "unborn"]
+PC0(c) == [t \in ThrOf(c) |-> IF t = 0 THEN "m_wait" ELSE "idle"]
 LL0(c) == [t \in ThrOf(c) |-> L0]
 
 InitFor(c) ==
@@ -143,7 +141,8 @@ Call(t) ==
                                 !.nexe = IF op = "e" THEN @ + 1 ELSE @,
                                 !.jset = IF op = "j" THEN before ELSE {},
                                 !.jown = IF op = "j" THEN {x \in before : t = 0 \/ Owner(x) = t} ELSE {},
-                                !.jfly = IF op = "j" THEN H.called \ H.returned ELSE {}])
+                                !.jfly = IF op = "j" THEN H.called \ H.returned ELSE {},
+                                !.jmiss = FALSE, !.jmissown = FALSE, !.jflym = FALSE])
         /\ H' = [H EXCEPT !.called = IF op = "e" THEN @ \cup {item} ELSE @]
         /\ ev' = [NoEv EXCEPT !.t = t, !.k = "call", !.op = op, !.item = item]
   /\ UNCHANGED <<cfg, ms, Q>>
@@ -239,8 +238,9 @@ ScSub(t) ==
                 /\ Goto(t, "c_load")
                 /\ UNCHANGED ms
            ELSE /\ H' = [H EXCEPT !.natt = att, !.unrec = FALSE, !.nspawn = @ + 1]
-                /\ L' = [L EXCEPT ![t] = [L[t] EXCEPT !.res = 0], ![u] = [L[u] EXCEPT !.cret = "dead"]]
-                /\ pc' = [pc EXCEPT ![t] = "ret", ![u] = "c_load"]
+                /\ L' = [x \in DOMAIN L \cup {u} |-> IF x = t THEN [L[t] EXCEPT !.res = 0]
+                                                      ELSE IF x = u THEN [L0 EXCEPT !.cret = "dead"] ELSE L[x]]
+                /\ pc' = [x \in DOMAIN pc \cup {u} |-> IF x = t THEN "ret" ELSE IF x = u THEN "c_load" ELSE pc[x]]
                 /\ ms' = SpawnEff(ms, t, u)
   /\ UNCHANGED <<cfg, Q>>
 
@@ -359,7 +359,13 @@ CCas(t, M(_)) ==
 (***************************************************************************)
 JLoad(t, M(_)) ==
   /\ pc[t] = "j_load"
-  /\ DoLoad(t, EvLoc, "join_load", M, LAMBDA v : UNCHANGED L /\ Goto(t, IF v = 0 THEN "ret" ELSE "j_sleep"))
+  /\ DoLoad(t, EvLoc, "join_load", M,
+        LAMBDA v : IF v # 0 THEN UNCHANGED L /\ Goto(t, "j_sleep")
+                   ELSE /\ Goto(t, "ret")
+                        \* the verdict on this join is taken at the moment it decides to return
+                        /\ SetL(t, [L[t] EXCEPT !.jmiss = ~(L[t].jset \subseteq H.consEnd),
+                                                !.jmissown = ~(L[t].jown \subseteq H.consEnd),
+                                                !.jflym = ~(L[t].jfly \subseteq H.consEnd)]))
   /\ UNCHANGED <<cfg, Q, H>>
 
 JSleep(t) ==
@@ -381,7 +387,7 @@ Step(t, M(_)) ==
 AllDone ==
   /\ pc[0] = "idle" /\ L[0].stage = "done"
   /\ \A t \in Prog : Finished(t)
-  /\ \A t \in Thr : t > P => pc[t] \in {"unborn", "dead"}
+  /\ \A t \in Thr : t > P => pc[t] = "dead"
 
 (***************************************************************************)
 (* L1 properties (C16) over the history                                    *)
@@ -407,18 +413,18 @@ NoStranding ==
 \* states it.  (Finding C16_join_behind_inflight_push: it does NOT hold when another execute() that took
 \* an earlier ticket of the inner queue is still in flight: the consumer's poll stops at the unpublished
 \* ticket, the counter goes back to 0 and join() returns although a submitted item is still queued.)
-JoinReturnsAfterConsumed == \A t \in 0..P : (pc[t] = "ret" /\ L[t].op = "j") => L[t].jset \subseteq H.consEnd
+JoinReturnsAfterConsumed == \A t \in 0..P : ~L[t].jmiss
 \* the same clause outside that witness class: no execute() that was in flight when join() was called
 \* is still undelivered
 JoinReturnsAfterConsumedNoInflight ==
-  \A t \in 0..P : (pc[t] = "ret" /\ L[t].op = "j" /\ L[t].jfly \subseteq H.consEnd) => L[t].jset \subseteq H.consEnd
+  \A t \in 0..P : L[t].jmiss => L[t].jflym
 \* the part of it that does not rest on real-time order between threads (meaningful with Stale = TRUE)
 JoinOwnAfterConsumed ==
-  \A t \in 0..P : (pc[t] = "ret" /\ L[t].op = "j" /\ L[t].jfly \subseteq H.consEnd) => L[t].jown \subseteq H.consEnd
+  \A t \in 0..P : L[t].jmissown => L[t].jflym
 \* safety form of JoinReturns / RecoveryAfterRefusal / no deadlock: when only joiners and blocked
 \* pushers are left, the counter is 0 (the joiners leave) and nobody is blocked
 Blocked(t) == pc[t] = "p_fill" /\ ~SlotFree(t)
-Quiet == \A t \in Thr : \/ pc[t] \in {"j_load", "j_sleep", "unborn", "dead"}
+Quiet == \A t \in Thr : \/ pc[t] \in {"j_load", "j_sleep", "dead"}
                         \/ Finished(t) /\ (t # 0 \/ L[0].stage = "done")
                         \/ Blocked(t)
                         \/ t = 0 /\ pc[0] = "m_wait" /\ \E u \in Prog : ~Finished(u)
